@@ -119,6 +119,7 @@ func checkC03(c ArgvCase, st *evid.Stats) error {
 			// name must be in remaining - compare with the consumption of the same command line in Pass mode.
 			ps := *c.Spec
 			ps.UnknownMode = UnkPass
+			ps.UnknownLate = 0
 			ps.Root = stripUnknownOverrides(c.Spec.Root)
 			if mp := Model(&ps, c.Argv); mp.Unspecified == "" && !mp.Fail {
 				st.Class("succeeded-despite-unknown-option-in-fail-mode")
